@@ -18,7 +18,7 @@ MANIFEST = {
 }
 THEOREMS = ['C02.capSites_table', 'C02.wrapSpecs_table', 'C02.cmd_sources_listed', 'C02.private_table', 'C02.step_changes_only_if_allowed', 'C02.admin_gate', 'C02.cap_growth_entitled', 'C02.no_new_owner_step', 'C02.not_granted_owner', 'C02.reload_caps_sub',
             'C02.no_new_owner_reload', 'C02.reload_preserves_inv', 'C02.reloadNoFlush_preserves_inv', 'C02.step_preserves_inv', 'C02.history_safe',
-            'C02.step_preserves_fileOk', 'C02.reloadNoFlush_caps_sub', 'C02.no_new_owner_reloadNoFlush', 'C02.reloadUsersFrom_file', 'C02.reloadNoFlush_owners', 'C02.step_ownInv', 'C02.history_owner_safe', 'C02.permCaps_perm', 'C02.fileOrder_fileOk', 'C02.fileOrder_fileOwn', 'C02.stepEv_ownInv', 'C02.history_owner_safe_ev', 'C02.history_safe_all_ev', 'C02.order_immaterial_when_storable', 'C02.cap_growth_gated', 'C02.step_caps_all', 'C02.history_caps_entitled', 'C02.invert_ok_of_isCapability', 'C02.addCaps_complete', 'C02.removeCaps_complete', 'C02.chanCapSet_saved', 'C02.chanOf_put', 'C02.body_chanShape', 'C02.step_chanAgree_all', 'C02.fileOrder_chanAgree', 'C02.history_chanAgree_ev', 'C02.flushReload_fileOk',
+            'C02.step_preserves_fileOk', 'C02.reloadNoFlush_caps_sub', 'C02.no_new_owner_reloadNoFlush', 'C02.reloadUsersFrom_file', 'C02.reloadNoFlush_owners', 'C02.step_ownInv', 'C02.history_owner_safe', 'C02.permCaps_perm', 'C02.fileOrder_fileOk', 'C02.fileOrder_fileOwn', 'C02.stepEv_ownInv', 'C02.history_owner_safe_ev', 'C02.history_safe_all_ev', 'C02.order_immaterial_when_storable', 'C02.cap_growth_gated', 'C02.step_caps_all', 'C02.history_caps_entitled', 'C02.invert_ok_of_isCapability', 'C02.addCaps_complete', 'C02.removeCaps_complete', 'C02.chanCapSet_saved', 'C02.chanOf_put', 'C02.body_chanShape', 'C02.step_chanAgree_all', 'C02.fileOrder_chanAgree', 'C02.history_chanAgree_ev', 'C02.stepEv_ownInv', 'C02.flushReload_fileOk',
             'C02.reloadNoFlush_fileOk', 'C02.step_safe_all', 'C02.history_safe_all', 'C02.st0_inv3',
             'C02.st0_inv', 'C02.cfg0_hashSafe']
 TRUSTED = ['Lean 4.33.0 kernel; axioms ⊆ {propext, Classical.choice, Quot.sound}',
@@ -55,8 +55,22 @@ def B():
 def H(p):
     return 'h' + wire.enc(p)
 
+class _Clock(object):
+    """stands in for the `time` module inside ircdb: logins are stamped and aged with this clock"""
+    def __init__(self):
+        import time as _t
+        self._t = _t; self.offset = 0.0
+    def time(self):
+        return self._t.time() + self.offset
+    def __getattr__(self, name):
+        return getattr(self._t, name)
+
+TIMEOUT = 3600
+
 def reset(b):
     ircdb = b.ircdb
+    if not isinstance(ircdb.time, _Clock):
+        ircdb.time = _Clock()
     ud = ircdb.users
     ud.users.clear(); ud.nextId = 0; ud._nameCache.clear(); ud._hostmaskCache.clear()
     ircdb.channels.channels.clear()
@@ -106,7 +120,9 @@ def snap_users(b):
 def snap(b):
     ircdb = b.ircdb
     users = snap_users(b)
-    auth = [(i, [h for (_, h) in u.auth]) for i, u in ircdb.users.users.items() if u.auth]
+    tmo = b.conf.supybot.databases.users.timeoutIdentification(); now = ircdb.time.time()
+    auth = [(i, [h for (w, h) in u.auth if not (tmo and w + tmo < now)]) for i, u in ircdb.users.users.items()]
+    auth = [(i, hs) for i, hs in auth if hs]
     chans = c16.snap_chans(ircdb.channels)
     ign = list(ircdb.ignores.hostmasks.items())
     dflt = sorted(str(x) for x in b.conf.supybot.capabilities())
@@ -155,6 +171,8 @@ HOSTILE_NAMES = [' bob', 'bob ', 'x\n  capability owner', 'y\r  capability owner
                  'v\x0b  capability owner', 'f\x0c  capability owner', 'g\x1c  capability owner', 'h\x1d  capability owner',
                  'i\x1e  capability owner', 'n\x85  capability owner', 'l\u2028  capability owner', 'p\u2029  capability owner',
                  'é', 'n m', '\x0bv', 'x\n', '*', 'root\n', ' ', 'owner']
+BREAK_NAMES = ['x\r  capability owner', 'z\n  capability owner', 'q\r\n  capability owner', 'w\r  capability admin', 'k\rname root']
+LINE_BREAKERS = '\r\n\x0b\x0c\x1c\x1d\x1e\x85\u2028\u2029'
 CAPS = ['owner', 'admin', 'trusted', 'foo', 'bar', '-foo', '--foo', '-admin', '-owner', 'OWNER', 'Owner', 'oWNER', 'FOO[',
         '--owner', '--OWNER', '----owner', '--admin', '#chan,--op', '#other,owner', '#other,foo', '#other,-foo',
         '#chan,op', '#chan,foo', '#chan,-foo', '#chan,owner', '#other,op', 'user.register', '-user.register', '-register', '-user',
@@ -192,7 +210,10 @@ def gen_cmd(r, S=None):
         return r.choice(pairs) if pairs and r.random() < 0.7 else None
     if k == 'register': return (k, [pick(r, NAMES, HOSTILE_NAMES), pw()])
     if k == 'unregister': return (k, [name(), r.choice(PWS + [None])])
-    if k == 'changename': return (k, [name(), pick(r, NAMES, HOSTILE_NAMES, 0.4), pw()])
+    if k == 'changename':
+        if r.random() < 0.12:       # a name that would be read back as several lines, by somebody who may rename the account
+            return (k, [r.choice(live_names), r.choice(BREAK_NAMES), r.choice(['pw1', 'pw2'])])
+        return (k, [name(), pick(r, NAMES, HOSTILE_NAMES, 0.4), pw()])
     if k == 'identify': return (k, [name(), pw()])
     if k == 'unidentify': return (k, [])
     if k == 'hostmaskAdd': return (k, [name(), r.choice(HOSTMASKS), pw()])
@@ -310,7 +331,7 @@ def enc_cmd(k, args):
     return '\t'.join(f)
 
 def guard_applies(k):
-    return k not in ('flushReload', 'reload', 'flushAll', 'upkeep')
+    return k not in ('flushReload', 'reload', 'flushAll', 'upkeep', 'expire')
 
 def replied_ok(out):
     for m in out:
@@ -356,18 +377,35 @@ def run_history(b, r, n_steps, out, hist_id):
     steps = []
     prev = S
     trail = []
+    # half of the histories run with supybot.databases.users.timeoutIdentification = 3600: the clock then jumps past
+    # it now and then (Ev.expire: every login made so far is gone)
+    tmo = TIMEOUT if r.random() < 0.5 else 0
+    b.conf.supybot.databases.users.timeoutIdentification.setValue(tmo)
     pending = []
     kinds = []          # one entry per driver line after plugins/init: 'step' or 'order'
     I16 = type('I', (), {'ircdb': ircdb})
     for si in range(n_steps):
-        where = None; gate_block = False; plugin_anti = ''
+        where = None; gate_block = False; plugin_anti = ''; admin_guarded = False; admin_ok = True; who_ids = []
+        forced_actor = None
         if pending:
-            k, args = pending.pop(0)
+            item = pending.pop(0)
+            k, args = item[0], item[1]
+            forced_actor = item[2] if len(item) > 2 else None
         else:
             k, args = gen_cmd(r, prev)
-        actor = gen_actor(r, k)
+        if tmo and not pending and r.random() < 0.06:
+            k, args = 'expire', []
+        actor = forced_actor or (gen_actor(r, k) if k != 'expire' else ACTORS[0])
+        if tmo and k == 'identify' and r.random() < 0.5:
+            if r.random() < 0.5:        # the admin's password, from whatever hostmask
+                args = ['adm', 'pw2']
+            pending.append(('expire', []))
+            if r.random() < 0.7:        # … and then the one who had logged in asks for something only the account may do
+                pending.append(('capAdd', [r.choice(['bob', 'opp', 'zed']), r.choice(['admin', 'foo', '-bar'])], actor))
         if k in ('chanCapUnset', 'chanCapSet') and any(not ircdb.isCapability(x) for x in args[1]) and r.random() < 0.5:
             pending.append(('reload', []))      # a refused set/unset, then SIGHUP: nothing may have changed in between
+        if k in ('register', 'changename') and any(ch in args[0 if k == 'register' else 1] for ch in LINE_BREAKERS) and r.random() < 0.6:
+            pending.append(('flushReload', []))     # whatever such a name did, it must not come back as extra lines
         if k == 'flushReload' and (any(c16.inverse_pair(I16, u['caps']) for _, u in prev['users']) or
                                    any(c16.inverse_pair(I16, c['caps']) for _, c in prev['chans'])):
             # finding C16-capability-inverse-pair: with both '--foo' and '-foo' in a set, which of them survives a
@@ -391,6 +429,10 @@ def run_history(b, r, n_steps, out, hist_id):
                 b.conf.supybot.flush.setValue(bool(args[0]))
                 try: b.world.upkeep()
                 finally: b.conf.supybot.flush.setValue(False)
+            ok = True
+            guard = None
+        elif k == 'expire':
+            ircdb.time.offset += TIMEOUT + 5
             ok = True
             guard = None
         elif k == 'reload':
@@ -454,6 +496,14 @@ def run_history(b, r, n_steps, out, hist_id):
                     bool(where and ircdb.checkCapability(actor, ircdb.makeChannelCapability(where, plugin_anti)))
             except Exception:
                 gate_block = True
+            # who the sender is, found by asking every account (no cache): an Admin command that changes anything
+            # comes from exactly one account, and that account holds admin or owner ('-admin' is a default capability)
+            try:
+                who_ids = [i for i, u_ in ircdb.users.users.items() if u_.checkHostmask(actor)]
+            except Exception:
+                who_ids = []
+            admin_ok = len(who_ids) == 1 and any(c_ in ircdb.users.users[who_ids[0]].capabilities for c_ in ('admin', 'owner'))
+            admin_guarded = plugin_anti == '-admin' and '-admin' in [str(x) for x in b.conf.supybot.capabilities()]
             # a quarter of the messages are sent in a channel, addressed to the bot by nick (Ev.cmdIn): the
             # command gate then also consults #chan,-command / #chan,command and the channel's defaultAllow,
             # `private` commands are refused, and the `op` converter may take the channel from the message
@@ -506,6 +556,9 @@ def run_history(b, r, n_steps, out, hist_id):
                         msgs.append('account %d gained %r through chanCapAdd on %r by %s (entitled for that channel only)'
                                     % (i, x, args[0], actor))
         changed = enc_state(cur) != enc_state(prev)
+        if changed and guard_applies(k) and admin_guarded and not admin_ok:
+            msgs.append('%s by %s changed the state, but the accounts recognising that hostmask now are %s and none of them is '
+                        'an admin (a login that has timed out?)' % (k, actor, who_ids))
         if changed and guard_applies(k) and gate_block:
             msgs.append('%s by %s%s changed the state although %s applies to the sender (the command gate must refuse)'
                         % (k, actor, ' in ' + where if where else '', plugin_anti))
@@ -522,10 +575,12 @@ def run_history(b, r, n_steps, out, hist_id):
                 tags.append('reload-inverse-pair-state')
         if k in ('flushReload', 'reload') and getattr(ircdb.log, 'exc', None):
             tags.append('load-stopped')        # no longer a run condition: history_safe_all covers loads that stop
-        c = Case({'history': hist_id, 'step': si, 'trail': list(trail)}, impl=('1' if ok else '0') + '\t' + enc_state(cur),
-                 oracle_ok=(not msgs), oracle_msg='; '.join(msgs), kind='history', tags=tuple(tags) if (changed or where or k in ('flushReload', 'reload', 'flushAll', 'upkeep')) else ())
+        c = Case({'history': hist_id, 'step': si, 'timeoutIdentification': tmo, 'trail': list(trail)}, impl=('1' if ok else '0') + '\t' + enc_state(cur),
+                 oracle_ok=(not msgs), oracle_msg='; '.join(msgs), kind='history', tags=tuple(tags) if (changed or where or k in ('flushReload', 'reload', 'flushAll', 'upkeep', 'expire')) else ())
         steps.append(c)
-        if where:
+        if k == 'expire':
+            drv.append('expire')
+        elif where:
             drv.append('cmdin\t%s\t%s\t%s' % (wire.enc(where), wire.enc(actor), enc_cmd(k, args)))
         else:
             drv.append('cmd\t%s\t%s' % (wire.enc(actor), enc_cmd(k, args)))
@@ -592,7 +647,7 @@ def run(ctx):
         more = explore(ctx, 150, seed_tag='/search')
         return [c for g in more for c in g[0] if c.oracle_ok is False]
     return verdict.conclude(PROPERTY, ctx.tier, ctx.seed, build, cases, search=search, rule=RULE, trusted_base=TRUSTED,
-                            assumptions=['Python asserts enabled', 'supybot.databases.users.timeoutIdentification = 0 (default)',
+                            assumptions=['Python asserts enabled', 'supybot.databases.users.timeoutIdentification = 0 (default) or 3600 with clock jumps past it (all logins expire at once)',
                                          'commands are sent in private or in a channel addressed by nick, with every argument explicit', 'actors are not owners'],
                             t0=ctx.t0)
 
@@ -604,9 +659,13 @@ def replay(ctx, path):
         print(json.dumps(d, indent=1)[:3000]); return 0
     print('oracle:', c.get('oracle_msg'))
     setup(b)
+    b.conf.supybot.databases.users.timeoutIdentification.setValue(c['input'].get('timeoutIdentification', 0))
     for st in c['input']['trail']:
         k, args, actor = st['cmd'], st['args'], st['actor']
-        if k == 'flushReload':
+        if k == 'expire':
+            b.ircdb.time.offset += TIMEOUT + 5
+            print('the clock jumps past timeoutIdentification')
+        elif k == 'flushReload':
             b.ircdb.users.flush(); b.ircdb.users.reload(); b.ircdb.channels.flush(); b.ircdb.channels.reload()
             b.ircdb.ignores.flush(); b.ircdb.ignores.reload()
             print('flush+reload')
